@@ -121,7 +121,7 @@ class HistProp:
         for kk, v in w.known_hits.items():
             counts["known:" + kk] += v
         for kk, v in rig.counts.items():
-            if kk.startswith("startup_"):
+            if kk.startswith(("startup_", "leniency:")):
                 counts[kk] += v
         counts["wire_errors"] += len(rig.wire_errors)
         counts["watchdog_hits"] += len(rig.watchdog_hits)
